@@ -1,12 +1,132 @@
-(* C17 — the property theorems, and nothing else.  Model: Cas/Model.v (heap of
-   lazily fetched directory objects and leaves over a fixed CAS), Cas/Cache.v
-   (cachingDirectoryFetcher); predicates: Cas/Spec.v. *)
-From VF Require Import Cas.Model Cas.Spec Cas.Cache Cas.ProofsLeaf.
+(* C17 — the property theorems, and nothing else.
+
+   Model: Cas/Model.v — a heap of directory objects (lazy with a digest /
+   lazy empty / fetched, entries in attach order) and leaf objects (CAS
+   backed file / symlink / local file) in allocation order, over a fixed
+   CAS [c] (digest -> REv2 Directory) and blob store [b]; [step] = one call
+   of the implementation (VirtualLookup, LookupChild, VirtualReadDir,
+   ReadDir, VirtualOpenChild, VirtualMkdir, VirtualRemove, Remove,
+   VirtualRename, VirtualLink, CreateChildren with a CAS fetcher,
+   MergeDirectoryContents, and the leaf calls) with the storage-error
+   script of that call.  [run c b init ops] over all [ops] = all
+   exploration orders interleaved with local modifications and all error
+   scripts.  [d_born]/[d_pristine] are ghost fields: the digest a directory
+   object was created from (or merged with while empty and untouched) and
+   "no local modification so far".  Cas/Cache.v: cachingDirectoryFetcher.
+   Predicates: Cas/Spec.v ([p_step] is what Corr.v evaluates on the code). *)
+From VF Require Import Cas.Model Cas.Spec Cas.Cache Cas.ProofsLeaf Cas.ProofsInv Cas.ProofsStep
+  Cas.ProofsFaithful Cas.ProofsTrace Cas.CacheProofs Cas.ProofsTop.
 Open Scope string_scope.
 Open Scope nat_scope.
 Open Scope list_scope.
 
-(* ---- cas_leaf_immutable ----------------------------------------------------- *)
+(* ---- root_faithful ------------------------------------------------------------ *)
+
+(* After any history: a directory object created from digest [d] whose
+   subtree (to depth k) was never locally modified shows, if explored to
+   the end, exactly the tree [d] denotes to that depth — whatever was or
+   was not explored so far, in whatever order, with whatever storage
+   errors in between.  Both sides are None together when something below
+   is missing, malformed or deeper than k. *)
+Theorem root_faithful : forall c b ops k i o d,
+  nth_error (st_dirs (run c b init ops)) i = Some o -> d_born o = Some d ->
+  deep_pristine k (run c b init ops) i ->
+  reveal k c (run c b init ops) i = denote_f k c d.
+Proof. exact root_faithful_l. Qed.
+Print Assumptions root_faithful.
+
+(* With the fuel of [denote] (number of stored Directory messages): if the
+   digest denotes a tree, that tree is what is visible. *)
+Theorem root_faithful_denote : forall c b ops i o d t,
+  nth_error (st_dirs (run c b init ops)) i = Some o -> d_born o = Some d ->
+  deep_pristine (S (List.length c)) (run c b init ops) i ->
+  denote c d = Some t ->
+  reveal (S (List.length c)) c (run c b init ops) i = Some t.
+Proof. exact root_faithful_denote_l. Qed.
+Print Assumptions root_faithful_denote.
+
+(* One level, nothing assumed about what is below: the entries of a fetched,
+   never modified directory object are the validated children of its
+   Directory message in sorted order — same names; a directory child is an
+   object born from the child's digest; a leaf child is an object of the
+   kind (CAS file with that digest and executable bit / symlink with that
+   target) the message says. *)
+Theorem root_faithful_one_level : forall c b ops i o d,
+  nth_error (st_dirs (run c b init ops)) i = Some o ->
+  d_pristine o = true -> d_born o = Some d -> d_lazy o = LNone ->
+  exists chs lvs, expect c d = Some (chs, lvs) /\
+    entries_ok (run c b init ops) lvs chs (d_entries o).
+Proof. exact root_faithful_level_l. Qed.
+Print Assumptions root_faithful_one_level.
+
+(* The invariant behind it, for all histories. *)
+Theorem inv_all_histories : forall c b ops, Inv c (run c b init ops).
+Proof. exact Inv_all. Qed.
+Print Assumptions inv_all_histories.
+
+(* Exploring is idempotent: looking up in / listing a fetched directory
+   changes nothing and fetches nothing; a directory forced once is not
+   fetched again. *)
+Theorem explore_idempotent : forall c b s i o,
+  nth_error (st_dirs s) i = Some o -> d_lazy o = LNone ->
+  forall n virt fs,
+    fst (step c b s (OLookup i n virt fs)) = s /\ o_fetches (snd (step c b s (OLookup i n virt fs))) = [] /\
+    fst (step c b s (OReadDir i virt fs)) = s /\ o_fetches (snd (step c b s (OReadDir i virt fs))) = [].
+Proof. exact explore_fetched. Qed.
+Print Assumptions explore_idempotent.
+
+Theorem force_idempotent : forall c s i fs s1 lg fs1 fs',
+  force c s i fs = (s1, lg, None, fs1) -> i < List.length (st_dirs s) ->
+  force c s1 i fs' = (s1, [], None, fs').
+Proof. exact force_twice. Qed.
+Print Assumptions force_idempotent.
+
+(* The fuel of denote only matters until it suffices. *)
+Theorem denote_fuel_monotone : forall c k d t, denote_f k c d = Some t -> denote_f (S k) c d = Some t.
+Proof. exact denote_f_mono. Qed.
+Print Assumptions denote_fuel_monotone.
+
+(* ---- malformed_is_error -------------------------------------------------------- *)
+
+(* Forcing a directory whose Directory message is missing or malformed
+   (invalid name, duplicate name, bad digest) fails whatever the error
+   script says: no directory object changes — the directory stays lazy and
+   never shows a different tree — and every leaf created before the error
+   was detected is left with link count 0 (unlinked). *)
+Theorem malformed_is_error : forall c s i o d fs,
+  nth_error (st_dirs s) i = Some o -> d_lazy o = LCas d -> expect c d = None ->
+  exists lvs lg code fs1,
+    force c s i fs = (mkState (st_dirs s) (add_leaves (st_leaves s) lvs 0), lg, Some code, fs1).
+Proof. exact force_malformed. Qed.
+Print Assumptions malformed_is_error.
+
+(* ... and the operation that forced it returns an error status. *)
+Theorem malformed_is_error_status : forall c b s i o d n virt fs,
+  nth_error (st_dirs s) i = Some o -> d_lazy o = LCas d -> expect c d = None ->
+  (exists code, o_status (snd (step c b s (OLookup i n virt fs))) = err_status virt code) /\
+  (exists code, o_status (snd (step c b s (OReadDir i virt fs))) = err_status virt code) /\
+  st_dirs (fst (step c b s (OLookup i n virt fs))) = st_dirs s /\
+  st_dirs (fst (step c b s (OReadDir i virt fs))) = st_dirs s.
+Proof. exact explore_malformed. Qed.
+Print Assumptions malformed_is_error_status.
+
+(* ---- fetch_error_not_sticky ------------------------------------------------------ *)
+
+(* What the code does after a failed fetch (getContents leaves
+   initialContentsFetcher in place): nothing is remembered.  No directory
+   object changes; after a storage error or a missing Directory the state
+   is literally the one before the call; the next access calls
+   GetDirectory for the same digest again. *)
+Theorem fetch_error_not_sticky : forall c s i fs s1 lg code fs1,
+  force c s i fs = (s1, lg, Some code, fs1) ->
+  st_dirs s1 = st_dirs s /\
+  exists o d fr, nth_error (st_dirs s1) i = Some o /\ d_lazy o = LCas d /\ lg = [(d, fr)] /\
+    (fr <> FOk -> s1 = s) /\
+    forall fs', exists fr', snd (fst (fst (force c s1 i fs'))) = [(d, fr')].
+Proof. exact force_error_retried. Qed.
+Print Assumptions fetch_error_not_sticky.
+
+(* ---- cas_leaf_immutable ----------------------------------------------------------- *)
 
 (* Every attempt to change a CAS backed file (open for writing or with
    truncation, set the size, write, allocate) returns an error status,
@@ -37,13 +157,120 @@ Theorem cas_leaf_contents_stable : forall c b ops s l lf,
 Proof. exact contents_stable. Qed.
 Print Assumptions cas_leaf_contents_stable.
 
+(* ---- P holds on the model --------------------------------------------------------- *)
+
+(* The predicate Corr.v evaluates on implementation traces (CAS unchanged;
+   leaves of a malformed fetch unlinked; lookups and listings of unmodified
+   directories equal the validated Directory of their digest, errors only
+   with a cause; malformed never presented as a tree; CAS files refuse
+   mutation and keep their contents) holds on every trace of the model. *)
+Theorem monitor_holds_on_model : forall c b ops, trace_ok c b (trace c b init ops) = true.
+Proof. exact trace_ok_all. Qed.
+Print Assumptions monitor_holds_on_model.
+
+(* ---- cache_key_separation ------------------------------------------------------------ *)
+
+(* Keys of cachingDirectoryFetcher: equal keys imply equal IsTreeRoot flag,
+   hash and size, and with KeyWithInstance equal digests (instance name
+   included). *)
+Theorem cache_key_separation : forall fmt d r d' r',
+  key_of fmt d r = key_of fmt d' r' ->
+  r = r' /\ snd (fst d) = snd (fst d') /\ snd d = snd d' /\ (fmt = true -> d = d').
+Proof. exact key_separation. Qed.
+Print Assumptions cache_key_separation.
+
+Theorem cache_key_tree_root_separate : forall fmt d d', key_of fmt d true <> key_of fmt d' false.
+Proof. exact key_root_differs. Qed.
+Print Assumptions cache_key_tree_root_separate.
+
+Theorem cache_key_instances_separate : forall i i' h z r,
+  i <> i' -> key_of true (i, h, z) r <> key_of true (i', h, z) r.
+Proof. exact key_instance_differs. Qed.
+Print Assumptions cache_key_instances_separate.
+
+(* A cached directory equals the stored one: for every request sequence,
+   capacity and base store that is content addressed as far as the key
+   format can tell, every answer is the base fetcher's answer for that
+   very request, and every cached object is what the base stores for a
+   request with that key. *)
+Theorem cache_returns_stored : forall st fmt maxc maxs ops,
+  store_respects st fmt ->
+  Forall (fun ox => cache_p_step st fmt (fst ox) (snd ox) = "")
+         (snd (crun st fmt maxc maxs [] ops)).
+Proof. exact cache_returns_stored_l. Qed.
+Print Assumptions cache_returns_stored.
+
+Theorem cache_entries_stored : forall st fmt maxc maxs ops e,
+  In e (fst (crun st fmt maxc maxs [] ops)) ->
+  exists o0, op_key fmt o0 = fst e /\ option_map fst (base_answer st o0) = Some (fst (snd e)).
+Proof. exact cache_entries_stored_l. Qed.
+Print Assumptions cache_entries_stored.
+
+(* With KeyWithInstance the hypothesis holds of every store. *)
+Theorem cache_with_instance_unconditional : forall st, store_respects st true.
+Proof. exact store_respects_with_instance. Qed.
+Print Assumptions cache_with_instance_unconditional.
+
+(* hardlinkingFileFetcher: the cache file name determines digest key and
+   executable bit. *)
+Theorem hardlink_key_separation : forall h x h' x', hl_key h x = hl_key h' x' -> h = h' /\ x = x'.
+Proof. exact hl_key_inj. Qed.
+Print Assumptions hardlink_key_separation.
+
+(* ---- non-vacuity ---------------------------------------------------------------------- *)
+
+Definition ex_d1 : digest := ("00000000000000000000000000000001", 1%Z).
+Definition ex_d2 : digest := ("00000000000000000000000000000002", 2%Z).
+Definition ex_d3 : digest := ("00000000000000000000000000000003", 3%Z).
+Definition ex_f : digest := ("000000000000000000000000000000f0", 3%Z).
+Definition ex_cas : cas :=
+  [(ex_d1, mkMsg [mkF "f" (Some ex_f) true] [mkD "sub" (Some ex_d2); mkD "bad" (Some ex_d3)] [mkS "l" "../t"]);
+   (ex_d2, mkMsg [mkF "g" (Some ex_f) false] [] []);
+   (ex_d3, mkMsg [mkF "a" (Some ex_f) false; mkF "a" (Some ex_f) false] [] [])].
+Definition ex_blobs : blobs := [(ex_f, "abc")].
+Definition ex_ops : list op :=
+  [OAttach 0 "root" ex_d1 []; OLookup 1 "sub" true [true]; OLookup 1 "sub" true [];
+   OReadDir 3 true []; OMkdir 0 "out" []].
+
+(* A partially explored input root (a storage error in between, a local
+   directory created next to it): the object born from ex_d2 shows the
+   tree of ex_d2, and is deeply unmodified. *)
+Example root_faithful_nonvacuous :
+  let s := run ex_cas ex_blobs init ex_ops in
+  reveal 2 ex_cas s 3 = Some (TDir [("g", TFile ex_f false)]) /\
+  denote ex_cas ex_d2 = Some (TDir [("g", TFile ex_f false)]) /\
+  option_map d_born (nth_error (st_dirs s) 3) = Some (Some ex_d2) /\
+  deep_pristine 2 s 3.
+Proof.
+  vm_compute. repeat split; auto.
+  intros _ n j [H|[]]. discriminate H.
+Qed.
+
+(* A duplicate name is an error; the leaf made before it was detected is
+   unlinked; a retry fails the same way. *)
+Example malformed_nonvacuous :
+  let s := run ex_cas ex_blobs init ex_ops in
+  expect ex_cas ex_d3 = None /\
+  (let x := snd (step ex_cas ex_blobs s (OReadDir 2 true [])) in
+   (o_status x, o_links x, o_ndirs x)) = (SIO, [(3, 0%Z)], 5) /\
+  denote ex_cas ex_d1 = None.
+Proof. vm_compute. auto. Qed.
+
 Example cas_leaf_immutable_nonvacuous :
-  let c := [(("00000000000000000000000000000001", 1%Z), mkMsg [mkF "f" (Some ("00000000000000000000000000000002", 3%Z)) true] [] [])] in
-  let b := [(("00000000000000000000000000000002", 3%Z), "abc")] in
-  let s := run c b init [OMerge 0 ("00000000000000000000000000000001", 1%Z) []] in
-  map (fun o => (o_status (snd (step c b s o)), o_obs (snd (step c b s o))))
+  let s := run ex_cas ex_blobs init ex_ops in
+  map (fun o => (o_status (snd (step ex_cas ex_blobs s o)), o_obs (snd (step ex_cas ex_blobs s o))))
       [OOpenSelf 0 true true false; OSetAttr 0 ASize; OWrite 0; OAllocate 0; OOpenSelf 0 true false false]
   = [(SAccess, Some (ObsFile 3 true (Some "abc"))); (SAccess, Some (ObsFile 3 true (Some "abc")));
      (SPanic, Some (ObsFile 3 true (Some "abc"))); (SWrongType, Some (ObsFile 3 true (Some "abc")));
      (SOK, Some (ObsFile 3 true (Some "abc")))].
+Proof. vm_compute. reflexivity. Qed.
+
+(* The cache: a Tree whose digest equals a Directory's digest gets its own
+   entry; a hit returns the stored object. *)
+Example cache_nonvacuous :
+  let st := mkStore [(("i", "aa", 5%Z), 1)] [(("i", "aa", 5%Z), (2, 9%Z))] in
+  snd (crun st false 4 100%Z [] [CGetDir ("i", "aa", 5%Z); CGetRoot ("i", "aa", 5%Z);
+                                 CGetDir ("j", "aa", 5%Z); CGetRoot ("i", "aa", 5%Z)])
+  = [(CGetDir ("i", "aa", 5%Z), (Some 1, true)); (CGetRoot ("i", "aa", 5%Z), (Some 2, true));
+     (CGetDir ("j", "aa", 5%Z), (Some 1, false)); (CGetRoot ("i", "aa", 5%Z), (Some 2, false))].
 Proof. vm_compute. reflexivity. Qed.
